@@ -84,8 +84,35 @@ def write_replay(prop, name, body):
     return p
 
 
-def finish(prop, spec, results, bounded, tier, seed, t0, verbose=False, partial=False):
+def tree_hash():
+    import hashlib
+    root = os.environ.get('REPO', REPO)
+    h = hashlib.sha256()
+    for base in ('replicat', 'src'):
+        for dp, dn, fn in sorted(os.walk(os.path.join(root, base))):
+            dn.sort()
+            if 'tests' in dp.split(os.sep) or '__pycache__' in dp:
+                continue
+            for f in sorted(fn):
+                if f.endswith(('.py', '.cpp')):
+                    h.update(f.encode())
+                    h.update(open(os.path.join(dp, f), 'rb').read())
+    return h.hexdigest()[:20]
+
+
+def load_baseline(prop):
+    p = os.path.join(VERIF, 'baseline', f'{prop}.json')
+    if os.path.exists(p):
+        return json.load(open(p))
+    return None
+
+
+def finish(prop, spec, results, bounded, tier, seed, t0, verbose=False, partial=False, record=False):
     known = open_findings(prop)
+    base = load_baseline(prop)
+    th = tree_hash()
+    base_proved = set(base['proved']) if base else set()
+    tree_changed = bool(base) and base.get('tree_hash') != th
     known_ids = {f['id'] for f in known}
     verdicts = []
     defects, undecided = [], []
@@ -128,6 +155,10 @@ def finish(prop, spec, results, bounded, tier, seed, t0, verbose=False, partial=
                 drift.append(v)
             else:
                 violations.append(v)
+        elif tree_changed and v['name'] in base_proved:
+            # discharged on the recorded baseline tree, not dischargeable on this (changed) tree
+            v['regressed'] = True
+            violations.append(v)
         else:
             undecided.append((v['name'], v.get('reason') or 'solver unknown'))
     bviol = []
@@ -168,7 +199,9 @@ def finish(prop, spec, results, bounded, tier, seed, t0, verbose=False, partial=
             'property': prop, 'obligation': v['name'], 'status': v['status'], 'tier': tier,
             'solver': {'backend': v['backend'], 'model': v.get('model'), 'goal': v.get('goal'), 'reason': v.get('reason')},
             'replay': rp, 'native_result': native, 'reproduced': reproduced,
-            'note': None if reproduced else 'no-failing-input-found: the obligation is refuted by the solver but the model was not reproduced natively',
+            'note': None if reproduced else ('no-failing-input-found: ' + (
+                'this obligation was discharged on the recorded baseline tree and no back end can discharge it on the current (changed) tree'
+                if v.get('regressed') else 'the obligation is refuted by the solver but the model was not reproduced natively')),
         })
         lines.append(f'VIOLATION property={prop} replay={path}' + ('' if reproduced else ' obligation=' + v['name'] + ' no-failing-input-found'))
         exit_code = 1
@@ -227,6 +260,7 @@ def finish(prop, spec, results, bounded, tier, seed, t0, verbose=False, partial=
         'solver_seconds_max_query': round(max_q, 3),
         'obligation_names': [{'name': v['name'], 'tag': v['tag'], 'status': v['status'], 'backend': v['backend']} for v in verdicts],
         'helper_drift': [v['name'] for v in drift],
+        'tree_hash': th, 'baseline_tree_hash': base.get('tree_hash') if base else None,
         'undecided': [u for u, _ in undecided],
         'known_findings_reproduced': sorted(seen),
         'bounded_stand_ins': bounded_summ,
@@ -249,7 +283,11 @@ def finish(prop, spec, results, bounded, tier, seed, t0, verbose=False, partial=
         'wall_s': round(time.time() - t0, 2),
         'violations': len(violations) + len(bviol),
     }
-    if not partial:
+    if record and exit_code == 0 and not partial:
+        os.makedirs(os.path.join(VERIF, 'baseline'), exist_ok=True)
+        with open(os.path.join(VERIF, 'baseline', f'{prop}.json'), 'w') as f:
+            json.dump({'tree_hash': th, 'proved': sorted({v['name'] for v in verdicts if v['status'] == 'proved'})}, f, indent=0)
+    if not partial and not os.environ.get('VF_NO_EVIDENCE'):
         os.makedirs(os.path.join(VERIF, 'evidence'), exist_ok=True)
         with open(os.path.join(VERIF, 'evidence', f'{prop}.json'), 'w') as f:
             json.dump(ev, f, indent=1, default=str)
